@@ -349,8 +349,10 @@ fn run_once(label: &str, prop: &str, opts: &Opts, extra: &[String], capture: boo
         use std::os::unix::process::ExitStatusExt;
         if let Some(sig) = o.status.signal() {
             let err = String::from_utf8_lossy(&o.stderr);
-            let tail: Vec<&str> = err.lines().filter(|l| !l.starts_with("Type ") && !l.starts_with("SUBJECT")).collect();
-            return RunOutcome::Signal(sig, tail.iter().rev().take(6).rev().cloned().collect::<Vec<_>>().join(" | "));
+            let lines: Vec<&str> = err.lines().filter(|l| !l.starts_with("Type ") && !l.starts_with("SUBJECT")).collect();
+            let key: Vec<&str> = lines.iter().copied().filter(|l| l.contains("memory allocation of") || l.contains("AddressSanitizer") || l.contains("panicked") || l.contains("SUMMARY") || l.contains("fatal runtime error") || l.contains("epserde/src")).take(6).collect();
+            let shown = if key.is_empty() { lines.iter().rev().take(4).rev().cloned().collect::<Vec<_>>() } else { key };
+            return RunOutcome::Signal(sig, shown.iter().map(|l| l.trim()).collect::<Vec<_>>().join(" | "));
         }
         return RunOutcome::Failed(format!("subject program {} exited with {:?} for {}", label, o.status.code(), prop));
     }
